@@ -292,7 +292,7 @@ def _work_cases(job: t.Tuple[t.Any, ...]) -> evid.Local:
 
 def run(ctx: evid.Ctx) -> None:
     thorough = ctx.tier == "thorough"
-    maxdev = 3 if thorough else 2
+    maxdev = 2  # (3 at the thorough tier became an hour once the token and extension alphabets had grown; the thorough tier widens the spacing instead)
     maxw = 2 if thorough else 1
     _X["maxw"] = maxw
     _X["combos"] = {k: list(dev_product(parts_for(k, thorough), maxdev)) for k in CLS}
@@ -300,7 +300,7 @@ def run(ctx: evid.Ctx) -> None:
     for k in CLS:
         jobs += [("gram", k, a, b) for a, b in par.split(len(_X["combos"][k]), 96 if thorough else 32)]
     jobs.append(("large",))
-    maxtok = 5 if thorough else 4
+    maxtok = 4
     for ln in range(1, maxtok + 1):
         jobs += [("tok", ln, tk) for tk in TOKENS]
     _X["corpus"] = {}
